@@ -34,6 +34,7 @@ struct Wire { writes: Vec<Vec<u8>>, recv: Vec<u8>, flushes: usize, calls: usize 
 
 struct Scripted {
     read: Option<Vec<u8>>,   // None = read error
+    read_pos: usize,
     ws: WScript,
     flush_ok: bool,
     wire: Arc<Mutex<Wire>>,
@@ -44,8 +45,12 @@ impl Read for Scripted {
         match &self.read {
             None => Err(io::Error::new(io::ErrorKind::ConnectionReset, "scripted read error")),
             Some(d) => {
-                let n = d.len().min(buf.len());
-                buf[..n].copy_from_slice(&d[..n]);
+                // what one `read` delivers: as much of the remaining data as fits; then end of stream
+                // (the peer has sent its request and half-closed): every further read returns 0
+                let rest = &d[self.read_pos.min(d.len())..];
+                let n = rest.len().min(buf.len());
+                buf[..n].copy_from_slice(&rest[..n]);
+                self.read_pos += n;
                 Ok(n)
             }
         }
@@ -219,7 +224,7 @@ impl ServeState {
                 let alloc: i64 = match f[1].parse() { Ok(a) => a, Err(_) => return "bad-op".into() };
                 let (read, ws) = match (parse_read(&f[2]), parse_ws(&f[3])) { (Some(r), Some(w)) => (r, w), _ => return "bad-op".into() };
                 let wire = Arc::new(Mutex::new(Wire::default()));
-                let stream = Scripted { read, ws, flush_ok: f[4] == "ok", wire: wire.clone() };
+                let stream = Scripted { read, read_pos: 0, ws, flush_ok: f[4] == "ok", wire: wire.clone() };
                 let connection = ConnectionInfo {
                     client: Address { ip: "127.0.0.1".to_string(), port: 40000 },
                     server: Address { ip: "127.0.0.1".to_string(), port: 7878 },
@@ -235,7 +240,7 @@ impl ServeState {
                 if f.len() < 3 { return "bad-op".into(); }
                 let (read, ws) = match (parse_read(&f[0]), parse_ws(&f[1])) { (Some(r), Some(w)) => (r, w), _ => return "bad-op".into() };
                 let wire = Arc::new(Mutex::new(Wire::default()));
-                let stream = Scripted { read, ws, flush_ok: f[2] == "ok", wire: wire.clone() };
+                let stream = Scripted { read, read_pos: 0, ws, flush_ok: f[2] == "ok", wire: wire.clone() };
                 let peer = SocketAddr::new(IpAddr::from_str("127.0.0.1").unwrap(), 40000);
                 let r = std::panic::catch_unwind(std::panic::AssertUnwindSafe(move || Server::process_request(stream, peer)));
                 let head = match r { Ok(v) => format!("ret:{}", hex(&v)), Err(_) => format!("panic {}", take_panic_site()) };
@@ -271,11 +276,19 @@ pub fn serve_loop() {
             let fields: Vec<String> = parts[1..].to_vec();
             let stp: *mut ServeState = &mut st;
             let stp = stp as usize;
+            let (tx, rx) = std::sync::mpsc::channel::<String>();
             let h = std::thread::Builder::new().name("0".to_string()).spawn(move || {
                 let st: &mut ServeState = unsafe { &mut *(stp as *mut ServeState) };
-                st.run(&op, &fields)
+                let r = st.run(&op, &fields);
+                let _ = tx.send(r);
             }).unwrap();
-            match h.join() { Ok(s) => s, Err(_) => format!("panic {}", take_panic_site()) }
+            // watchdog: a case that does not come back (a handler spinning or blocking forever) ends this
+            // process with status 3; the driver records `abort 3` for the case and resumes in a fresh process
+            match rx.recv_timeout(std::time::Duration::from_secs(20)) {
+                Ok(s) => { let _ = h.join(); s }
+                Err(std::sync::mpsc::RecvTimeoutError::Timeout) => std::process::exit(3),
+                Err(_) => match h.join() { Ok(()) => "bad-op".to_string(), Err(_) => format!("panic {}", take_panic_site()) },
+            }
         };
         crate::emit(&res);
     }
